@@ -31,7 +31,19 @@ extern "C" void sym_body()
         const double v  = f.vgrad(x, g);
         const double v0 = f.vgrad(x);
         SYM_EQ_(v0, v, "value-only call = value+gradient call");
-        for (tensor_size_t i = 0; i < terms; ++i) sym_check_deriv(v, sym_nm("m", i).c_str(), g(i), "gradient = derivative of the value (surrogate fitting objective)");
+        for (tensor_size_t i = 0; i < terms; ++i)
+        {
+            if (sym_concrete())
+            {
+                // replay / validation on IEEE doubles: central differences
+                const double hh = 1e-6;
+                vector_t     xp = x, xm = x;
+                xp(i) += hh;
+                xm(i) -= hh;
+                sym_close(g(i), (f.vgrad(xp) - f.vgrad(xm)) / (2 * hh), 1e-4, "gradient = derivative of the value (surrogate fitting objective)");
+            }
+            else sym_check_deriv(v, sym_nm("m", i).c_str(), g(i), "gradient = derivative of the value (surrogate fitting objective)");
+        }
         return;
     }
     vector_t model(terms);
@@ -44,5 +56,16 @@ extern "C" void sym_body()
     const double v  = f.vgrad(x, g);
     const double v0 = f.vgrad(x);
     SYM_EQ_(v0, v, "value-only call = value+gradient call");
-    for (tensor_size_t i = 0; i < p; ++i) sym_check_deriv(v, sym_nm("x", i).c_str(), g(i), "gradient = derivative of the value (quadratic surrogate)");
+    for (tensor_size_t i = 0; i < p; ++i)
+    {
+        if (sym_concrete())
+        {
+            const double hh = 1e-6;
+            vector_t     xp = x, xm = x;
+            xp(i) += hh;
+            xm(i) -= hh;
+            sym_close(g(i), (f.vgrad(xp) - f.vgrad(xm)) / (2 * hh), 1e-4, "gradient = derivative of the value (quadratic surrogate)");
+        }
+        else sym_check_deriv(v, sym_nm("x", i).c_str(), g(i), "gradient = derivative of the value (quadratic surrogate)");
+    }
 }
